@@ -282,6 +282,7 @@ func r18_2(c *Ctx, rule string) {
 	for _, pt := range c.prefixTests(dd) {
 		n++
 		ok, why := sepTerminated(c, pt.prefix, false, 0)
+		ok = ok || pt.sepChecked
 		c.R.Check(ok, rule, pt.name+"/separator-terminated", c.pos(pt.site), "prefix is last + \"/\"", "the containment prefix is not separator-terminated ("+why+"): 'a' swallows 'ab'")
 	}
 	c.R.Floor(rule, "prefix tests in dedupePaths", n, 1)
